@@ -104,6 +104,7 @@ func forall(lo, hi int, f func(int) bool) bool {
 // always equal the total length of the stored strings (size accounting).
 //@ func SortedCache.Push
 //@   property C19 C10
+//@   nowrap
 //@   requires s.tree != nil && s.tree.bytes >= 0 && s.byteSize == uint64(s.tree.bytes)
 //@   modifies s.byteSize, s.tree.set, s.tree.bytes
 //@   ensures s.byteSize == uint64(s.tree.bytes)
